@@ -1029,6 +1029,7 @@ fn main() {
         }
         return;
     }
+    let only: Option<usize> = args.iter().position(|a| a == "--only").and_then(|i| args.get(i + 1)).and_then(|v| v.parse().ok());
     for ci in 0..n {
         let c = gen_cfg(&mut rng, ci);
         st.sources += 1;
@@ -1039,10 +1040,14 @@ fn main() {
             // the default master need not be the first <source>
             rng.shuffle(&mut design.masters);
         }
-        let path = design.write_designspace(&sub);
-        strip_default_keys(&sub, &c);
         let static_pick = rng.below(c.global_masters().len() as u64) as usize;
         let do_static = rng.chance(1, 3);
+        if let Some(o) = only {
+            // --only <source index>: replay one source of the stream (case ids differ from the full run)
+            if o != ci { continue; }
+        }
+        let path = design.write_designspace(&sub);
+        strip_default_keys(&sub, &c);
         let srcjson = json!({
             "axes": c.axes, "dyadic": c.dyadic, "upem": c.upem, "vertical": c.vertical,
             "masters": c.masters.iter().map(|m| json!({"name": m.name, "design": m.design, "sparse": m.sparse,
@@ -1364,8 +1369,30 @@ fn check_font(c: &Cfg, d: &Decoded, bytes: &[u8], src: &serde_json::Value, st: &
                     None => (base as f64, Some(Rat::int(base as i128))),
                 };
                 st.metric_master_pairs += 1;
-                let expect = if m.unsigned_field() { expected[k].clamp(0, 65535) } else { expected[k].clamp(-32768, 32767) };
+                // the field itself is narrowed (C19's subject); through MVAR a non-default master's value is not
+                let expect = if *mi != c.default_master() {
+                    expected[k]
+                } else if m.unsigned_field() {
+                    expected[k].clamp(0, 65535)
+                } else {
+                    expected[k].clamp(-32768, 32767)
+                };
                 let err = (v - expect as f64).abs();
+                // coordinates that are not multiples of 1/16384 are stored rounded to F2Dot14 (master
+                // location and region coordinates alike): each region scalar moves by up to about
+                // 2 / (narrowest side of the tent, in F2Dot14 units) per axis; with exact coordinates
+                // the bound is the theorem's 1/2
+                let allowance = if c.dyadic {
+                    1e-9
+                } else {
+                    1e-9 + rec.as_ref().map(|r| r.iter().map(|(rg, dl)| {
+                        let a: f64 = rg.iter().filter(|(_, p, _)| *p != 0).map(|(s0, p, e)| {
+                            let w = [(p - s0).abs(), (e - p).abs()].into_iter().filter(|w| *w > 0).min().unwrap_or(16384);
+                            2.0 / w as f64
+                        }).sum();
+                        a * dl.abs() as f64
+                    }).sum::<f64>()).unwrap_or(0.0)
+                };
                 let input = json!({"source": src, "metric": m.coq(), "mvar_tag": m.mvar_tag().map(|t| String::from_utf8_lossy(t).to_string()),
                                    "master": c.masters[*mi].name, "normalized_f2dot14": coords, "font_value": v, "rounded_source_value": expect});
                 if *mi == c.default_master() {
@@ -1376,7 +1403,7 @@ fn check_font(c: &Cfg, d: &Decoded, bytes: &[u8], src: &serde_json::Value, st: &
                             input,
                         );
                     }
-                } else if m.mvar_tag().is_some() && err > 0.5 + 1e-9 {
+                } else if m.mvar_tag().is_some() && err > 0.5 + allowance {
                     emit_violation(
                         "metric-differs-from-master",
                         format!("{:?} through MVAR at master {} is {} but that master gives {}", m, c.masters[*mi].name, v, expect),
